@@ -14,9 +14,9 @@
   and, on top, a network = nodes + datagrams in flight (used by the driver and by the path theorems).
 
   Quirks kept: tables are looked up in the order the code uses (relays first on receipt; circuit, exit, relay on
-  sending); a cell for an id with no entry is sent unencrypted; a circuit without verified hops accepts only
+  sending); a cell for an id with no entry, or for an own circuit without verified hops, is not sent at all unless it is flagged plaintext (bea4e39); a circuit without verified hops accepts only
   plaintext-flagged cells;
-  on_created neither checks the sender nor the CREATED's circuit id, only the identifier; every relayed cell bumps
+  on_created does not check the sender of a CREATED (identifier and circuit id must match the pending request); every relayed cell bumps
   relay_early_count; a relay re-encrypts backward cells blindly; on_data's "origin" test is always true;
   exit_data checks the source only while the socket is not yet enabled; packets wait in the exit socket's own
   queue while its transports are being opened (explicit phases); on_ping answers to the datagram's source.
@@ -129,9 +129,10 @@ structure Node where
   creates : List CreateReq
   nextKey : Nat
   defer : Bool := false         -- remove_tunnel_delay > 0: remove_* only pops the entry when its sleep is over
+  doomed : List (Nat × Nat) := []   -- sleeping remove_* tasks: (0 circuit | 1 relay | 2 exit socket, id)
   deriving DecidableEq, Repr
 
-def Node.init (i : Nat) : Node := ⟨i, [], [], [], [], [], 0, false⟩
+def Node.init (i : Nat) : Node := ⟨i, [], [], [], [], [], 0, false, []⟩
 
 inductive Out (B : Type) where
   | cell (dst : Nat) (c : Cell B)
@@ -171,19 +172,25 @@ def Node.inUse (n : Node) (cid : Nat) : Bool :=
 def rmCircuit (n : Node) (cid : Nat) : Node :=
   if n.defer then
     match get n.circuits cid with
-    | some c => { n with circuits := set n.circuits cid { c with closing := true, retry := 0 } }
+    | some c => { n with circuits := set n.circuits cid { c with closing := true, retry := 0 },
+                         doomed := n.doomed ++ [(0, cid)] }
     | none => n
   else { n with circuits := del n.circuits cid }
 
 /-- remove_exit_socket / remove_relay (both directions) up to their sleep -/
-def rmExit (n : Node) (cid : Nat) : Node := if n.defer then n else { n with exits := del n.exits cid }
-def rmRelays (n : Node) (a b : Nat) : Node := if n.defer then n else { n with relays := del (del n.relays a) b }
+def rmExit (n : Node) (cid : Nat) : Node :=
+  if n.defer then { n with doomed := n.doomed ++ [(2, cid)] } else { n with exits := del n.exits cid }
+def rmRelays (n : Node) (a b : Nat) : Node :=
+  if n.defer then { n with doomed := n.doomed ++ [(1, a), (1, b)] } else { n with relays := del (del n.relays a) b }
 
-/-- the delayed `circuits.pop(id)` / `relay_from_to.pop(id)` / `exit_sockets.pop(id)`: they act by id on whatever is
-    there when the sleep is over -/
-def popCircuit (n : Node) (cid : Nat) : Node := { n with circuits := del n.circuits cid }
-def popRelay (n : Node) (cid : Nat) : Node := { n with relays := del n.relays cid }
-def popExit (n : Node) (cid : Nat) : Node := { n with exits := del n.exits cid }
+/-- the delayed `circuits.pop(id)` / `relay_from_to.pop(id)` / `exit_sockets.pop(id)`: they happen only when a sleeping
+    remove_* task for that id exists, and act by id on whatever is there when the sleep is over -/
+def popCircuit (n : Node) (cid : Nat) : Node :=
+  if n.doomed.contains (0, cid) then { n with circuits := del n.circuits cid, doomed := n.doomed.erase (0, cid) } else n
+def popRelay (n : Node) (cid : Nat) : Node :=
+  if n.doomed.contains (1, cid) then { n with relays := del n.relays cid, doomed := n.doomed.erase (1, cid) } else n
+def popExit (n : Node) (cid : Nat) : Node :=
+  if n.doomed.contains (2, cid) then { n with exits := del n.exits cid, doomed := n.doomed.erase (2, cid) } else n
 
 /-- `Circuit.hop`: first verified hop, else the unverified one -/
 def Circ.firstHop (c : Circ) : Option Hop :=
@@ -206,11 +213,15 @@ def encryptAll (d : Dir) : List Nat → B → B
   | [], b => b
   | k :: ks, b => A.enc k d (encryptAll d ks b)
 
-/-- outgoing_crypto; `none` = the KeyError of a half-removed relay pair (nothing is sent) -/
+/-- outgoing_crypto; `none` = nothing is sent: a cell that is not flagged plaintext and for which no keys exist (own
+    circuit without verified hops; id with no entry at all) raises CryptoException, as does the KeyError-free lookup of a
+    half-removed relay pair -/
 def outCrypto (n : Node) (c : Cell B) : Option (Cell B) :=
   if c.plaintext then some c else
   match get n.circuits c.cid with
-  | some circ => some { c with body := encryptAll A .fwd (circ.hops.map Hop.key) c.body }
+  | some circ =>
+    if circ.hops.isEmpty then none
+    else some { c with body := encryptAll A .fwd (circ.hops.map Hop.key) c.body }
   | none =>
     match get n.exits c.cid with
     | some e => some { c with body := A.enc e.hop.key .bwd c.body }
@@ -220,7 +231,7 @@ def outCrypto (n : Node) (c : Cell B) : Option (Cell B) :=
         match get n.relays r.next with
         | some o => some { c with body := A.enc o.hop.key o.dir c.body }
         | none => none
-      | none => some c
+      | none => none
 
 /-- PythonCryptoEndpoint.send_cell (with TunnelCommunity.send_cell's plaintext flag already set by the caller) -/
 def sendCell (n : Node) (dst : Nat) (c : Cell B) (isExtend : Bool) : Node × List (Out B) :=
@@ -269,11 +280,12 @@ def onCreate (n : Node) (src cid ident pk dh : Nat) : Node × List (Out B) :=
                               nextKey := n.nextKey + 1 }
     sendMsg A n1 src cid (.created ident k n.self dh)
 
-def popCreate : List CreateReq → Nat → Option (CreateReq × List CreateReq)
-  | [], _ => none
-  | r :: t, num =>
-    if r.number = num then some (r, t)
-    else match popCreate t num with
+def popCreate : List CreateReq → Nat → Nat → Option (CreateReq × List CreateReq)
+  | [], _, _ => none
+  | r :: t, num, cid =>
+    -- the pending request with this identifier, provided the CREATED names the circuit id we created
+    if r.number = num ∧ r.toId = cid then some (r, t)
+    else match popCreate t num cid with
       | some (x, t') => some (x, r :: t')
       | none => none
 
@@ -303,7 +315,7 @@ def oursCreated (n : Node) (cid : Nat) (circ : Circ) (key authPk dhRef : Nat) (c
 
 /-- on_created -/
 def onCreated (n : Node) (cid ident key authPk dhRef : Nat) (ch : Choice) : Node × List (Out B) :=
-  match popCreate n.creates ident with
+  match popCreate n.creates ident cid with
   | some (rq, rest) =>
     let n1 : Node := { n with creates := rest }
     match get n1.exits rq.fromId with
@@ -485,6 +497,19 @@ def apiSendData (n : Node) (cid dest tag : Nat) : Node × List (Out B) :=
 def apiTunnelData (n : Node) (cid org tag : Nat) : Node × List (Out B) :=
   match get n.exits cid with
   | some e => sendMsg A n e.hop.addr cid (.data 0 org tag)
+  | none => (n, [])
+
+/-- tunnel_data of an exit socket OBJECT that is no longer in the table (`hopAddr` is the object's own hop): send_cell
+    looks the id up again and uses whatever entry it names now — or sends nothing -/
+def apiStaleTunnelData (n : Node) (cid hopAddr org tag : Nat) : Node × List (Out B) :=
+  sendMsg A n hopAddr cid (.data 0 org tag)
+
+/-- a datagram from outside that looks like a message of the tunnel community itself (prefix + message id `mid`) arrives
+    at exit socket `cid`: it travels back as DATA; at the originator on_data dispatches only registered ids, so it is
+    modelled as a message no handler takes (`other`) -/
+def apiTunnelNested (n : Node) (cid mid : Nat) : Node × List (Out B) :=
+  match get n.exits cid with
+  | some e => sendMsg A n e.hop.addr cid (.other (200 + mid))
   | none => (n, [])
 
 def pingAll (n : Node) : List (Nat × Circ) → Node × List (Out B)
